@@ -149,6 +149,13 @@ def _ctx(env, variant):
                 raise Unsupported()
             if name in ('sqrt', 'log', 'exp_c', 'recip') and not x._shape_ and x._derivs_ and not KF2_REPAIRED:
                 raise Unsupported()          # known finding KF-C03-2: shapeless mask_where(replace=) drops derivatives
+            if name == 'pickle' and any(
+                    not np.array_equal(np.broadcast_to(d._mask_, x._shape_), np.broadcast_to(x._mask_, x._shape_))
+                    for d in x._derivs_.values()):
+                # the pickler stores a derivative under its OBJECT's mask: elements masked in the derivative only come
+                # back unmasked (a round-trip matter of C11, identical in both runs); the model pickles each array under
+                # its own mask, so such operands are not tied
+                raise Unsupported()
             if name in TABLES:
                 tabulate(TABLES[name], x)
             return ['un', UN[name], t], run(name, params, [x])
